@@ -36,9 +36,27 @@ PASS = {"add", "__add__", "__radd__", "sub", "__sub__", "__rsub__", "subtract", 
         "round", "mse_loss", "l1_loss", "softplus", "hardswish", "hardsigmoid", "mish", "logsumexp", "group_norm",
         "batch_norm", "instance_norm", "normalize", "avg_pool2d", "max_pool2d", "adaptive_avg_pool2d", "interpolate",
         "embedding", "nll_loss", "binary_cross_entropy_with_logits", "kl_div", "rms_norm", "scaled_dot_product_attention"}
-MONITORED = MOVE | RESCALE | REQUANT | CONTRACT | PASS
-INPLACE = {"copy_", "relu_"}
+# in-place arithmetic: the float program changes its first operand, so what is judged is that operand afterwards
+INPLACE_ARITH = {"mul_", "div_", "add_", "sub_", "neg_", "clamp_", "zero_", "fill_", "masked_fill_", "__imul__",
+                 "__itruediv__", "__iadd__", "__isub__", "__setitem__", "index_copy_", "index_fill_", "abs_", "exp_",
+                 "sigmoid_", "tanh_", "clamp_min_", "clamp_max_", "addcmul_", "hardtanh_"}
+MONITORED = MOVE | RESCALE | REQUANT | CONTRACT | PASS | INPLACE_ARITH
+INPLACE = {"copy_", "relu_"} | INPLACE_ARITH
 MOVES_COPIES = {"clone", "detach", "contiguous", "to", "cpu", "copy_", "type", "half", "float", "bfloat16"}
+
+
+def _inplace_flag(func, args, kwargs):
+    """True for functional forms called with inplace=True (relu, hardtanh, dropout, ...)."""
+    if kwargs.get("inplace") is True:
+        return True
+    if len(args) < 2 or not any(a is True for a in args[1:]):
+        return False
+    try:
+        import inspect
+
+        return inspect.signature(func).bind(*args, **kwargs).arguments.get("inplace") is True
+    except Exception:
+        return False
 
 
 def fname(func):
@@ -148,6 +166,8 @@ class Monitor:
         self._keep = []  # keep tainted objects alive so that ids stay unique
         self.prefix = prefix
         self.step_info = None  # set by workloads: dict merged into witnesses
+        self._inplace_now = False
+        self._dest_pre, self._rest, self._rest_pre = None, [], []
 
     # -- install / uninstall ------------------------------------------------------------------
     def install(self):
@@ -272,18 +292,23 @@ class Monitor:
         # ---- phase 1: fingerprints + shadow execution (monitor busy)
         self.local.busy = True
         shadow_out, shadow_exc, pre_fp, okinds, sh_args, sh_kwargs = None, None, None, None, None, None
+        inpl = (None, [], [])
+        inplace = name in INPLACE or _inplace_flag(func, args, kwargs)
         try:
             okinds = [k for k in (kind_of(a) for a in list(args) + list(kwargs.values())) if k]
             qleaves = [a for a in leaves if is_q(a)]
-            pre_fp = [fp.tensor_fp(a) for a in leaves if isinstance(a, torch.Tensor)] if name not in INPLACE else None
+            pre_fp = [fp.tensor_fp(a) for a in leaves if isinstance(a, torch.Tensor)] if not inplace else None
+            if inplace and args and isinstance(args[0], torch.Tensor):
+                rest = [a for a in leaves[1:] if isinstance(a, torch.Tensor) and a is not args[0]]
+                inpl = (fp.tensor_fp(args[0]), rest, [fp.tensor_fp(a) for a in rest])
             with torch.no_grad():
                 sh_args, sh_kwargs = pytree.tree_map(lambda x: shadow_of(x) if is_q(x) else (
-                    x.detach().clone() if isinstance(x, torch.Tensor) and name in INPLACE else
+                    x.detach().clone() if isinstance(x, torch.Tensor) and inplace else
                     (x.detach() if isinstance(x, torch.Tensor) else x)), (args, kwargs))
                 try:
                     with torch._C.DisableTorchFunctionSubclass():
                         shadow_out = func(*sh_args, **sh_kwargs)
-                        if name in INPLACE:
+                        if inplace:
                             shadow_out = sh_args[0]
                 except Exception as e:
                     shadow_exc = e
@@ -306,6 +331,8 @@ class Monitor:
         # ---- phase 3: judgement
         self.local.busy = True
         try:
+            self._dest_pre, self._rest, self._rest_pre = inpl
+            self._inplace_now = inplace
             self._judge(name, func, args, kwargs, leaves, okinds, pre_fp, sh_args, sh_kwargs, shadow_out, shadow_exc, out,
                         real_exc, depth)
         except Exception as e:
@@ -355,7 +382,10 @@ class Monitor:
             post = [fp.tensor_fp(a) for a in leaves if isinstance(a, torch.Tensor)]
             if post != pre_fp:
                 self._report("C05", dict(kind="operand_mutated", func=name, operands=ksig), dict(depth=depth))
-        real_out = args[0] if name in INPLACE else out
+        if self._inplace_now and self.judge_c05 and getattr(self, "_dest_pre", None) is not None:
+            if [fp.tensor_fp(a) for a in self._rest] != self._rest_pre:
+                self._report("C05", dict(kind="operand_mutated", func=name, operands=ksig), dict(depth=depth, inplace=True))
+        real_out = args[0] if self._inplace_now else out
         r_leaves = pytree.tree_leaves(real_out)
         s_leaves = pytree.tree_leaves(shadow_out)
         any_q_out = any(is_q(x) for x in r_leaves)
@@ -417,11 +447,11 @@ class Monitor:
         func, args, kwargs = func_args
         with torch.no_grad():
             a2, k2 = pytree.tree_map(lambda x: oracles.plain(fp.unwrap_param(x).dequantize()).clone() if is_q(x) else (
-                x.detach().clone() if isinstance(x, torch.Tensor) and name in INPLACE else
+                x.detach().clone() if isinstance(x, torch.Tensor) and self._inplace_now else
                 (x.detach() if isinstance(x, torch.Tensor) else x)), (args, kwargs))
             with torch._C.DisableTorchFunctionSubclass():
                 out = func(*a2, **k2)
-                if name in INPLACE:
+                if self._inplace_now:
                     out = a2[0]
         return pytree.tree_leaves(out)[index]
 
@@ -458,7 +488,7 @@ class Monitor:
                     return True
                 diff = torch.where(~torch.isfinite(ref64) | (ref64.abs() > 0.98 * num.fmax(wd)),
                                    torch.zeros_like(diff), diff)
-        elif is_q(r) and self._requantized(name, args, r):
+        elif is_q(r) and ((self._inplace_now and name != "copy_") or self._requantized(name, args, r)):
             cls_ = "requant"
             rr = fp.unwrap_param(r)
             sc = oracles.plain(fp.inner(rr)[0]["_scale"]).to(F64)
@@ -513,6 +543,16 @@ class Monitor:
         try:
             sn = num.smallest_normal(wd)
             qs = [fp.unwrap_param(a) for a in pytree.tree_leaves(args) if is_q(a)]
+            if self._inplace_now and name != "copy_" and is_q(r) and getattr(self, "_dest_pre", None) == fp.tensor_fp(r):
+                return "quantized_destination_left_unchanged"
+            if name == "__setitem__" and is_q(r) and len(qs) >= 2 and type(qs[0]).__name__ == "QBytesTensor":
+                # the assigned slice was copied together with its scale, which the slice shares with the whole tensor
+                vals = [q for q in qs[1:] if type(q).__name__ == "QBytesTensor"]
+                rsc = oracles.plain(fp.inner(fp.unwrap_param(r))[0]["_scale"])
+                if vals and rsc.numel() == 1 and any(
+                        fp.plain_bytes(oracles.plain(fp.inner(v)[0]["_scale"]).to(rsc.dtype).reshape(rsc.shape)) == fp.plain_bytes(rsc)
+                        for v in vals if fp.inner(v)[0]["_scale"].numel() == 1) and self._dest_pre != fp.tensor_fp(r):
+                    return "slice_assignment_overwrites_shared_scale"
             if is_q(r):
                 rs = oracles.plain(fp.inner(fp.unwrap_param(r))[0]["_scale"]).to(F64).abs()
                 if bool((rs < sn).any()):
